@@ -119,6 +119,18 @@ CLAIMED["C10"] = dict(
    note=TB + "Modelled, not verified: asyncio (A1-A4); session.close is awaited without suspension in the model; write failures are modelled as a lost transport noticed at the next drain/read.",
    design="DESIGN.md section 4, C10")
 
+CLAIMED["C01"] = dict(
+   technique="Lean 4 proof (no OK without a success decision, for every branch of authenticate; closed state absorbing; failed handshake / failed COM_CHANGE_USER end the connection) + differential execution of exchanges and their consequences",
+   text="Theorems in lean/MimicProps/C01.lean: for every identity-provider configuration, route, announced plugin, response and reply sequence, an outcome other "
+        "than `authenticated` never writes an OK packet; a successful exchange ends with OK for the identity a plugin decision vouched for; a denied / unknown-user / "
+        "malformed handshake writes exactly one ERR, never initialises the session, closes and releases the connection, and nothing the client sends afterwards "
+        "produces a packet or a session call (closed is absorbing); a denied or raising COM_CHANGE_USER is answered by one ERR, closes the session exactly once "
+        "and serves nothing afterwards. Tie: random configurations (native, two clear-password plugins, no-login, trust, 2-round custom) / users / responses on "
+        "the handshake route with follow-up commands, then COM_CHANGE_USER (right / wrong / unknown / raising) with follow-ups, compared with Mimic.Auth and "
+        "Mimic.Conn; oracle-only: handshake responses truncated at every offset, wrong sequence ids in the connection phase; reference predicate (hashlib).",
+   note=TB + "Modelled, not verified: parse_handshake_response (its outcome - parsed / raised - is observed, see C07), asyncio.",
+   design="DESIGN.md section 4, C01")
+
 REASON_PENDING = "check not built yet (work in progress; see DESIGN.md section 9)"
 
 m = {
